@@ -4,8 +4,8 @@ from __future__ import annotations
 import ast
 from typing import List, Optional
 
-from .. import q
-from ..core import AnchorError, Ctx, FuncInfo, dotted, norm, walk_no_nested
+from .. import pat, q
+from ..core import guard_facts, AnchorError, Ctx, FuncInfo, dotted, norm, walk_no_nested
 
 ID = "C13"
 TECHNIQUE = (
@@ -118,7 +118,19 @@ def run(ctx: Ctx):
             # controlled gates: controls = w[0:-1], target = w[-1]
             for c in q.calls(loop):
                 if isinstance(c.func, ast.Attribute) and c.func.attr == "mcx" and len(c.args) == 2:
-                    ctx.check(q.is_all_but_last(c.args[0], w) and q.is_last_index(c.args[1], w), "DP-WIRES", fi, "mcx(controls = all but last, target = last)", norm(c), f"`{norm(c)}` does not split the wire list as controls + target", c)
+                    bnd = pat.bindings(fi.node)
+                    a0, a1 = pat.look_through(c.args[0], bnd), pat.look_through(c.args[1], bnd)
+                    st_ = q.enclosing_stmt(fi, c)
+                    blk = None
+                    for par_ in ast.walk(loop):
+                        for fld in ("body", "orelse"):
+                            b_ = getattr(par_, fld, None)
+                            if isinstance(b_, list) and st_ in b_:
+                                blk = b_
+                    if blk is not None:
+                        a0 = q.value_at(blk, st_, a0) or a0
+                        a1 = q.value_at(blk, st_, a1) or a1
+                    ctx.check(q.is_all_but_last(a0, w) and q.is_last_index(a1, w), "DP-WIRES", fi, "mcx(controls = all but last, target = last)", norm(c), f"`{norm(c)}` (= {norm(a0)}, {norm(a1)}) does not split the wire list as controls + target", c)
     # helper functions of the sympy exporter
     for hn in ("mcx", "toffoli"):
         h = repo.maybe_func(f"qcircuit.exporter_sympy.{hn}")
@@ -189,9 +201,46 @@ def check_qasm(ctx: Ctx):
     reads = sorted({n.attr for n in ast.walk(gk.node) if isinstance(n, ast.Attribute) and isinstance(n.value, ast.Name) and n.value.id == "self"})
     if reads != ["qubit_map"]:
         raise AnchorError(gk.short, f"get_key_by_index now reads {reads}: names are no longer derived from qubit_map alone, and the analysis cannot decide that a secondary index stays consistent with every write to qubit_map (re-pointing a name, deleting, promoting)")
-    txt = norm(gk.node).replace(" ", "")
-    ctx.check("forkeyinreversed(self.qubit_map.keys())" in txt and "ifself.qubit_map[key]==i:" in txt and "returnkey" in txt, "MP-formals-provenance", gk, "the name of qubit i is the latest key mapped to i", "", "get_key_by_index no longer returns the most recently mapped name of the index", gk.node)
-    ctx.check(isinstance(gk.body[-1], ast.Raise), "MP-formals-provenance", gk, "unnamed indices raise", "", "", gk.node)
+    ip = gk.params[1]
+    role = "the name of qubit i is the latest key mapped to i"
+    scan = [l for l in q.for_loops(gk.node) if "qubit_map" in norm(l.iter)]
+    comps = [c for c in ast.walk(gk.node) if isinstance(c, (ast.ListComp, ast.GeneratorExp)) and "qubit_map" in norm(c.generators[0].iter)]
+    verdict = None
+    why = ""
+    if len(scan) == 1 and not comps:
+        l = scan[0]
+        par = q.reversal_parity(l.iter)[1]
+        hit = [r for r in q.returns(gk) if q.contains(l, r)]
+        if len(hit) == 1:
+            facts = [(pat.t(e), pol) for e, pol in guard_facts(gk, hit[0])]
+            k = norm(l.target) if isinstance(l.target, ast.Name) else (norm(l.target.elts[0]) if isinstance(l.target, ast.Tuple) else None)
+            matches = any(pol and f in (f"self.qubit_map[{k}]=={ip}", f"{ip}==self.qubit_map[{k}]") for f, pol in facts) or (isinstance(l.target, ast.Tuple) and any(pol and f in (f"{norm(l.target.elts[1])}=={ip}", f"{ip}=={norm(l.target.elts[1])}") for f, pol in facts))
+            if matches and pat.t(hit[0].value) == k:
+                verdict = par == 1
+                why = "the scan over the map runs in insertion order and returns the FIRST name mapped to the index: when a qubit has several names (aliases, re-pointed names) the oldest is used, which may since point elsewhere in exported formal lists"
+    elif len(comps) == 1 and not scan:
+        c = comps[0]
+        g = c.generators[0]
+        k = norm(g.target) if isinstance(g.target, ast.Name) else (norm(g.target.elts[0]) if isinstance(g.target, ast.Tuple) else None)
+        conds = [pat.t(x) for x in g.ifs]
+        v = norm(g.target.elts[1]) if isinstance(g.target, ast.Tuple) else f"self.qubit_map[{k}]"
+        sel_ok = len(conds) == 1 and conds[0] in (f"{v}=={ip}".replace(" ", ""), f"{ip}=={v}".replace(" ", "")) and pat.t(c.elt) == k
+        par = q.reversal_parity(g.iter)[1]
+        asg = gk.pm.get(c)
+        nm = asg.targets[0].id if isinstance(asg, ast.Assign) and isinstance(asg.targets[0], ast.Name) else None
+        rets = [r for r in q.returns(gk) if nm and isinstance(r.value, ast.Subscript) and norm(r.value.value) == nm]
+        if sel_ok and len(rets) == 1:
+            last = q.is_last_index(rets[0].value)
+            first = pat.t(rets[0].value.slice) == "0"
+            if last or first:
+                verdict = (last and par == 0) or (first and par == 1)
+                why = "of the names mapped to the index the OLDEST is returned, not the most recent one"
+    if verdict is None:
+        ctx.undecided(gk.short, f"{role}: the lookup is neither a scan returning the first hit nor a filtered list of the names")
+    else:
+        ctx.check(verdict, "MP-formals-provenance", gk, role, "", f"get_key_by_index no longer returns the most recently mapped name of the index: {why}", gk.node)
+    raises = [n for n in walk_no_nested(gk.node) if isinstance(n, ast.Raise)]
+    ctx.check(bool(raises), "MP-formals-provenance", gk, "unnamed indices raise", "", "an index that no name is mapped to does not raise: None would be printed as a qubit name", gk.node)
     # version switch
     ex = repo.func("qcircuit.exporter_qasm.QasmExporter.export")
     txt = norm(ex.node)
